@@ -2,3 +2,4 @@ import GbVerif.Props.C13
 import GbVerif.Props.C15
 import GbVerif.Props.C17
 import GbVerif.Props.C19
+import GbVerif.Props.C20
